@@ -439,210 +439,6 @@ theorem totalOk_run (s : State) (ops : List Op) (hT : TotalOk s) : TotalOk (run 
   | nil => exact hT
   | cons op r ih => exact ih _ (totalOk_step s op hT)
 
-/-! ## votes: an oracle votes at most once per nonce (needs the per-oracle last nonce to survive) -/
-
-def V1 (atts : List Att) (ln : Map Nat) : Prop :=
-  ∀ a ∈ atts, ∀ o ∈ a.votes, ∃ v, ln.get o = some v ∧ a.nonce ≤ v
-
-def V2 (atts : List Att) : Prop :=
-  (∀ a ∈ atts, a.votes.Nodup) ∧
-  ∀ a ∈ atts, ∀ b ∈ atts, ∀ o, a.nonce = b.nonce → o ∈ a.votes → o ∈ b.votes → a.hash = b.hash
-
-/-- every attestation of `atts'` has a counterpart in `atts` with the same key and votes -/
-def AttsLe (atts' atts : List Att) : Prop :=
-  ∀ a ∈ atts', ∃ b ∈ atts, b.nonce = a.nonce ∧ b.hash = a.hash ∧ b.votes = a.votes
-
-theorem V1_of_le {atts' atts : List Att} {ln : Map Nat} (hle : AttsLe atts' atts) (h : V1 atts ln) : V1 atts' ln := by
-  intro a ha o ho
-  obtain ⟨b, hb, hn, _, hv⟩ := hle a ha
-  have := h b hb o (hv ▸ ho)
-  rw [hn] at this; exact this
-
-theorem V2_of_le {atts' atts : List Att} (hle : AttsLe atts' atts) (h : V2 atts) : V2 atts' := by
-  refine ⟨?_, ?_⟩
-  · intro a ha
-    obtain ⟨b, hb, _, _, hv⟩ := hle a ha
-    rw [← hv]; exact h.1 b hb
-  · intro a ha b hb o hn hoa hob
-    obtain ⟨a', ha', han, hah, hav⟩ := hle a ha
-    obtain ⟨b', hb', hbn, hbh, hbv⟩ := hle b hb
-    have := h.2 a' ha' b' hb' o (by rw [han, hbn]; exact hn) (hav ▸ hoa) (hbv ▸ hob)
-    rw [← hah, ← hbh]; exact this
-
-theorem attsLe_refl (l : List Att) : AttsLe l l := fun a ha => ⟨a, ha, rfl, rfl, rfl⟩
-
-theorem tryAttest_attsLe (s : State) (att : Att) (kind : Kind) (hin : att ∈ s.atts) :
-    AttsLe (tryAttest s att kind).atts s.atts := by
-  cases ht : tally s.oracles (required s.lastTotalPower) att.votes 0
-  · rw [tryAttest_false s att kind ht]; exact attsLe_refl _
-  · obtain ⟨_, h2, _⟩ := tryAttest_true s att kind ht
-    intro a ha
-    rw [h2] at ha
-    rcases mem_setAtt (mem_prune ha) with h | h
-    · subst h; exact ⟨att, hin, rfl, rfl, rfl⟩
-    · exact ⟨a, h, rfl, rfl, rfl⟩
-
-theorem voteAtt_votes (s : State) (o n h : Nat) :
-    ∃ vs0, (voteAtt s o n h).votes = vs0 ++ [o] ∧
-      ((∃ a0 ∈ s.atts, a0.nonce = n ∧ a0.hash = h ∧ a0.votes = vs0) ∨ vs0 = []) := by
-  unfold voteAtt
-  split
-  · rename_i a hf
-    have := findAtt_some hf
-    exact ⟨a.votes, rfl, Or.inl ⟨a, this.1, this.2.1, this.2.2, rfl⟩⟩
-  · exact ⟨[], rfl, Or.inr rfl⟩
-
-theorem effLast_of_get {s : State} {o v : Nat} (h : s.lastNonce.get o = some v) : effLast s o = v := by
-  simp [effLast, h]
-
-theorem votes_attest (s : State) (o n h : Nat) (kind : Kind) (h1 : V1 s.atts s.lastNonce) (h2 : V2 s.atts)
-    (hn : n = effLast s o + 1) :
-    V1 (attest s o n h kind).atts (attest s o n h kind).lastNonce ∧ V2 (attest s o n h kind).atts := by
-  have hk := voteAtt_key s o n h
-  obtain ⟨vs0, hvs, hvs0⟩ := voteAtt_votes s o n h
-  -- the voting oracle has no vote at a nonce ≥ n yet
-  have hA : ∀ a ∈ s.atts, o ∈ a.votes → a.nonce < n := by
-    intro a ha ho
-    obtain ⟨v, hv, hle⟩ := h1 a ha o ho
-    rw [effLast_of_get hv] at hn; omega
-  have hvs0' : ∀ o' ∈ vs0, ∃ a0 ∈ s.atts, a0.nonce = n ∧ a0.hash = h ∧ o' ∈ a0.votes := by
-    intro o' ho'
-    rcases hvs0 with ⟨a0, ha0, hn0, hh0, hv0⟩ | hnil
-    · exact ⟨a0, ha0, hn0, hh0, hv0 ▸ ho'⟩
-    · subst hnil; simp at ho'
-  have ho_not : o ∉ vs0 := by
-    intro hc
-    obtain ⟨a0, ha0, hn0, _, hoa⟩ := hvs0' o hc
-    have := hA a0 ha0 hoa; omega
-  -- invariants for the list with the vote recorded and the last nonce advanced
-  have hV1 : V1 (setAtt s.atts (voteAtt s o n h)) (s.lastNonce.set o n) := by
-    intro a ha o' ho'
-    by_cases heq : o' = o
-    · subst heq
-      refine ⟨n, get_set_self _ _ _, ?_⟩
-      rcases mem_setAtt ha with h3 | h3
-      · rw [h3, hk.1]; exact Nat.le_refl _
-      · exact Nat.le_of_lt (hA a h3 ho')
-    · rw [get_set_ne _ _ _ _ (Ne.symm heq)]
-      rcases mem_setAtt ha with h3 | h3
-      · rw [h3, hvs] at ho'
-        rcases List.mem_append.mp ho' with h4 | h4
-        · obtain ⟨a0, ha0, hn0, _, hoa⟩ := hvs0' o' h4
-          have := h1 a0 ha0 o' hoa
-          rw [h3, hk.1, ← hn0]; exact this
-        · simp at h4; exact absurd h4 heq
-      · exact h1 a h3 o' ho'
-  have hV2 : V2 (setAtt s.atts (voteAtt s o n h)) := by
-    refine ⟨?_, ?_⟩
-    · intro a ha
-      rcases mem_setAtt ha with h3 | h3
-      · rw [h3, hvs, List.nodup_append]
-        refine ⟨?_, by simp, ?_⟩
-        · rcases hvs0 with ⟨a0, ha0, _, _, hv0⟩ | hnil
-          · rw [← hv0]; exact h2.1 a0 ha0
-          · subst hnil; simp
-        · intro x hx y hy
-          simp at hy; subst hy
-          intro hxy; subst hxy; exact ho_not hx
-      · exact h2.1 a h3
-    · -- a vote shared by the new attestation and a stored one of the same nonce
-      have key : ∀ b ∈ s.atts, ∀ o', b.nonce = n → o' ∈ (voteAtt s o n h).votes → o' ∈ b.votes → b.hash = h := by
-        intro b hb o' hbn hov hob
-        rw [hvs] at hov
-        rcases List.mem_append.mp hov with h4 | h4
-        · obtain ⟨a0, ha0, hn0, hh0, hoa⟩ := hvs0' o' h4
-          have := h2.2 a0 ha0 b hb o' (by rw [hn0, hbn]) hoa hob
-          rw [← this, hh0]
-        · simp at h4; subst h4
-          have := hA b hb hob; omega
-      intro a ha b hb o' hnab hoa hob
-      rcases mem_setAtt ha with h3 | h3 <;> rcases mem_setAtt hb with h4 | h4
-      · rw [h3, h4]
-      · rw [h3] at hnab hoa ⊢
-        rw [hk.2]
-        exact (key b h4 o' (by rw [← hnab, hk.1]) hoa hob).symm
-      · rw [h4] at hnab hob ⊢
-        rw [hk.2]
-        exact key a h3 o' (by rw [hnab, hk.1]) hob hoa
-      · exact h2.2 a h3 b h4 o' hnab hoa hob
-  -- the rest of `attest` only flips the observed flag / prunes
-  have hle : AttsLe (attest s o n h kind).atts (setAtt s.atts (voteAtt s o n h)) := by
-    unfold attest
-    simp only []
-    split
-    · exact tryAttest_attsLe { s with atts := setAtt s.atts (voteAtt s o n h) } _ kind (mem_setAtt_self _ _)
-    · exact attsLe_refl _
-  have hln : (attest s o n h kind).lastNonce = s.lastNonce.set o n := by
-    unfold attest
-    simp only []
-    split
-    · cases ht : tally s.oracles (required s.lastTotalPower) (voteAtt s o n h).votes 0
-      · rw [tryAttest_false _ _ _ (by simpa using ht)]
-      · obtain ⟨_, _, _, _, _, h6, _⟩ := tryAttest_true { s with atts := setAtt s.atts (voteAtt s o n h) } (voteAtt s o n h) kind (by simpa using ht)
-        simp at h6; simp [h6]
-    · rfl
-  rw [hln]
-  exact ⟨V1_of_le hle hV1, V2_of_le hle hV2⟩
-
-/-- an op that cannot delete a per-oracle last nonce -/
-def Op.keepsLastNonce : Op → Bool
-  | .unbond _ _ _ _ => !unbondDeletesLastNonce
-  | _ => true
-
-structure VInv (s : State) : Prop where
-  v1 : V1 s.atts s.lastNonce
-  v2 : V2 s.atts
-
-theorem unbond_lastNonce (s : State) (o : Nat) (u : Bool) (bal : Nat) (d : Bool) (hk : unbondDeletesLastNonce = false) :
-    (unbondStep s o u bal d).1.lastNonce = s.lastNonce := by
-  unfold unbondStep
-  repeat' split
-  all_goals simp_all
-
-theorem vinv_of_eq {s s' : State} (ha : s'.atts = s.atts) (hl : s'.lastNonce = s.lastNonce) (h : VInv s) : VInv s' :=
-  ⟨by rw [ha, hl]; exact h.v1, by rw [ha]; exact h.v2⟩
-
-theorem core_atts {s s' : State} (h : Core s' = Core s) : s'.atts = s.atts := by
-  simp only [Core, Prod.mk.injEq] at h; exact h.2.1
-
-theorem vinv_step (s : State) (op : Op) (hop : Op.keepsLastNonce op = true) (hV : VInv s) : VInv (step s op).1 := by
-  cases op with
-  | claim w i n h k e =>
-    simp only [step]
-    unfold claimStep
-    repeat' split
-    all_goals first | exact hV | skip
-    rename_i o _ _ _ _ _ _ hc
-    have hn : n = effLast s o + 1 := by
-      simp [attestChecksContiguity] at hc; exact hc
-    have := votes_attest s o n h k hV.v1 hV.v2 hn
-    exact ⟨this.1, this.2⟩
-  | bond o b e a d => exact vinv_of_eq (core_atts (bond_core s o b e a d).1) (bond_core s o b e a d).2 hV
-  | addDelegate o a d => exact vinv_of_eq (core_atts (addDelegate_core s o a d).1) (addDelegate_core s o a d).2 hV
-  | editBridger o b => exact vinv_of_eq (core_atts (editBridger_core s o b).1) (editBridger_core s o b).2 hV
-  | unbond o u bal d =>
-    have hk : unbondDeletesLastNonce = false := by simpa [Op.keepsLastNonce] using hop
-    exact vinv_of_eq (core_atts (unbond_core s o u bal d)) (unbond_lastNonce s o u bal d hk) hV
-  | gov l d => exact vinv_of_eq (core_atts (gov_core s l d).1) (gov_core s l d).2 hV
-  | endBlock l r => exact vinv_of_eq (core_atts (endBlock_core s l r).1) (endBlock_core s l r).2 hV
-  | exec n f =>
-    simp only [step]
-    unfold execStep
-    repeat' split
-    all_goals exact ⟨hV.v1, hV.v2⟩
-
-theorem vinv_init (p : Params) : VInv (init p) := by
-  constructor
-  · intro a ha; simp [init] at ha
-  · constructor <;> (intro a ha; simp [init] at ha)
-
-theorem vinv_run (s : State) (ops : List Op) (hops : ∀ op ∈ ops, Op.keepsLastNonce op = true) (hV : VInv s) :
-    VInv (run s ops) := by
-  induction ops generalizing s with
-  | nil => exact hV
-  | cons op r ih =>
-    exact ih _ (fun x hx => hops x (List.mem_cons_of_mem _ hx)) (vinv_step s op (hops op List.mem_cons_self) hV)
-
 /-! ## what an accepted claim needs, and what makes an attestation observed -/
 
 theorem claim_ok (s : State) (w i n h : Nat) (k : Kind) (hok : (claimStep s w i n h k).2 = .ok) :
@@ -666,16 +462,6 @@ theorem claim_not_ok (s : State) (w i n h : Nat) (k : Kind) (hne : (claimStep s 
   repeat' split
   all_goals first | rfl | skip
   all_goals simp_all
-
-theorem attest_lastNonce (s : State) (o n h : Nat) (kind : Kind) : (attest s o n h kind).lastNonce = s.lastNonce.set o n := by
-  unfold attest
-  simp only []
-  split
-  · cases ht : tally s.oracles (required s.lastTotalPower) (voteAtt s o n h).votes 0
-    · rw [tryAttest_false _ _ _ (by simpa using ht)]
-    · obtain ⟨_, _, _, _, _, h6, _⟩ := tryAttest_true { s with atts := setAtt s.atts (voteAtt s o n h) } (voteAtt s o n h) kind (by simpa using ht)
-      simp at h6; simp [h6]
-  · rfl
 
 theorem observed_attest (s : State) (o n h : Nat) (kind : Kind) (a' : Att) (ha : a' ∈ (attest s o n h kind).atts)
     (hob : a'.observed = true) :
@@ -901,5 +687,392 @@ theorem binv_run (s : State) (ops : List Op) (hB : BInv s) : BInv (run s ops) :=
   induction ops generalizing s with
   | nil => exact hB
   | cons op r ih => exact ih _ (binv_step s op hB)
+
+/-! ## votes: an oracle votes at most once per nonce (as long as no oracle whose last nonce was deleted bonds again) -/
+
+/-- every vote sits at a nonce not above the voter's stored last nonce — or the voter is retired (unbonded, key deleted) -/
+def V1 (atts : List Att) (ln : Map Nat) (ret : List Nat) : Prop :=
+  ∀ a ∈ atts, ∀ o ∈ a.votes, (∃ v, ln.get o = some v ∧ a.nonce ≤ v) ∨ o ∈ ret
+
+def V2 (atts : List Att) : Prop :=
+  (∀ a ∈ atts, a.votes.Nodup) ∧
+  ∀ a ∈ atts, ∀ b ∈ atts, ∀ o, a.nonce = b.nonce → o ∈ a.votes → o ∈ b.votes → a.hash = b.hash
+
+/-- every attestation of `atts'` has a counterpart in `atts` with the same key and votes -/
+def AttsLe (atts' atts : List Att) : Prop :=
+  ∀ a ∈ atts', ∃ b ∈ atts, b.nonce = a.nonce ∧ b.hash = a.hash ∧ b.votes = a.votes
+
+theorem V1_of_le {atts' atts : List Att} {ln : Map Nat} {ret : List Nat} (hle : AttsLe atts' atts) (h : V1 atts ln ret) :
+    V1 atts' ln ret := by
+  intro a ha o ho
+  obtain ⟨b, hb, hn, _, hv⟩ := hle a ha
+  have := h b hb o (hv ▸ ho)
+  rw [hn] at this; exact this
+
+theorem V2_of_le {atts' atts : List Att} (hle : AttsLe atts' atts) (h : V2 atts) : V2 atts' := by
+  refine ⟨?_, ?_⟩
+  · intro a ha
+    obtain ⟨b, hb, _, _, hv⟩ := hle a ha
+    rw [← hv]; exact h.1 b hb
+  · intro a ha b hb o hn hoa hob
+    obtain ⟨a', ha', han, hah, hav⟩ := hle a ha
+    obtain ⟨b', hb', hbn, hbh, hbv⟩ := hle b hb
+    have := h.2 a' ha' b' hb' o (by rw [han, hbn]; exact hn) (hav ▸ hoa) (hbv ▸ hob)
+    rw [← hah, ← hbh]; exact this
+
+theorem attsLe_refl (l : List Att) : AttsLe l l := fun a ha => ⟨a, ha, rfl, rfl, rfl⟩
+
+theorem tryAttest_attsLe (s : State) (att : Att) (kind : Kind) (hin : att ∈ s.atts) :
+    AttsLe (tryAttest s att kind).atts s.atts := by
+  cases ht : tally s.oracles (required s.lastTotalPower) att.votes 0
+  · rw [tryAttest_false s att kind ht]; exact attsLe_refl _
+  · obtain ⟨_, h2, _⟩ := tryAttest_true s att kind ht
+    intro a ha
+    rw [h2] at ha
+    rcases mem_setAtt (mem_prune ha) with h | h
+    · subst h; exact ⟨att, hin, rfl, rfl, rfl⟩
+    · exact ⟨a, h, rfl, rfl, rfl⟩
+
+theorem voteAtt_votes (s : State) (o n h : Nat) :
+    ∃ vs0, (voteAtt s o n h).votes = vs0 ++ [o] ∧
+      ((∃ a0 ∈ s.atts, a0.nonce = n ∧ a0.hash = h ∧ a0.votes = vs0) ∨ vs0 = []) := by
+  unfold voteAtt
+  split
+  · rename_i a hf
+    have := findAtt_some hf
+    exact ⟨a.votes, rfl, Or.inl ⟨a, this.1, this.2.1, this.2.2, rfl⟩⟩
+  · exact ⟨[], rfl, Or.inr rfl⟩
+
+theorem effLast_of_get {s : State} {o v : Nat} (h : s.lastNonce.get o = some v) : effLast s o = v := by
+  simp [effLast, h]
+
+theorem attest_lastNonce (s : State) (o n h : Nat) (kind : Kind) : (attest s o n h kind).lastNonce = s.lastNonce.set o n := by
+  unfold attest
+  simp only []
+  split
+  · cases ht : tally s.oracles (required s.lastTotalPower) (voteAtt s o n h).votes 0
+    · rw [tryAttest_false _ _ _ (by simpa using ht)]
+    · obtain ⟨_, _, _, _, _, h6, _⟩ := tryAttest_true { s with atts := setAtt s.atts (voteAtt s o n h) } (voteAtt s o n h) kind (by simpa using ht)
+      simp at h6; simp [h6]
+  · rfl
+
+theorem attest_retired (s : State) (o n h : Nat) (kind : Kind) : (attest s o n h kind).retired = s.retired := by
+  unfold attest
+  simp only []
+  split
+  · unfold tryAttest
+    split
+    · cases kind <;> rfl
+    · rfl
+  · rfl
+
+theorem votes_attest (s : State) (o n h : Nat) (kind : Kind) (ret : List Nat) (h1 : V1 s.atts s.lastNonce ret) (h2 : V2 s.atts)
+    (hn : n = effLast s o + 1) (hret : o ∉ ret) :
+    V1 (attest s o n h kind).atts (attest s o n h kind).lastNonce ret ∧ V2 (attest s o n h kind).atts := by
+  have hk := voteAtt_key s o n h
+  obtain ⟨vs0, hvs, hvs0⟩ := voteAtt_votes s o n h
+  -- the voting oracle has no vote at a nonce ≥ n yet
+  have hA : ∀ a ∈ s.atts, o ∈ a.votes → a.nonce < n := by
+    intro a ha ho
+    rcases h1 a ha o ho with ⟨v, hv, hle⟩ | hr
+    · rw [effLast_of_get hv] at hn; omega
+    · exact absurd hr hret
+  have hvs0' : ∀ o' ∈ vs0, ∃ a0 ∈ s.atts, a0.nonce = n ∧ a0.hash = h ∧ o' ∈ a0.votes := by
+    intro o' ho'
+    rcases hvs0 with ⟨a0, ha0, hn0, hh0, hv0⟩ | hnil
+    · exact ⟨a0, ha0, hn0, hh0, hv0 ▸ ho'⟩
+    · subst hnil; simp at ho'
+  have ho_not : o ∉ vs0 := by
+    intro hc
+    obtain ⟨a0, ha0, hn0, _, hoa⟩ := hvs0' o hc
+    have := hA a0 ha0 hoa; omega
+  -- invariants for the list with the vote recorded and the last nonce advanced
+  have hV1 : V1 (setAtt s.atts (voteAtt s o n h)) (s.lastNonce.set o n) ret := by
+    intro a ha o' ho'
+    by_cases heq : o' = o
+    · subst heq
+      refine Or.inl ⟨n, get_set_self _ _ _, ?_⟩
+      rcases mem_setAtt ha with h3 | h3
+      · rw [h3, hk.1]; exact Nat.le_refl _
+      · exact Nat.le_of_lt (hA a h3 ho')
+    · rw [get_set_ne _ _ _ _ (Ne.symm heq)]
+      rcases mem_setAtt ha with h3 | h3
+      · rw [h3, hvs] at ho'
+        rcases List.mem_append.mp ho' with h4 | h4
+        · obtain ⟨a0, ha0, hn0, _, hoa⟩ := hvs0' o' h4
+          have := h1 a0 ha0 o' hoa
+          rw [h3, hk.1, ← hn0]; exact this
+        · simp at h4; exact absurd h4 heq
+      · exact h1 a h3 o' ho'
+  have hV2 : V2 (setAtt s.atts (voteAtt s o n h)) := by
+    refine ⟨?_, ?_⟩
+    · intro a ha
+      rcases mem_setAtt ha with h3 | h3
+      · rw [h3, hvs, List.nodup_append]
+        refine ⟨?_, by simp, ?_⟩
+        · rcases hvs0 with ⟨a0, ha0, _, _, hv0⟩ | hnil
+          · rw [← hv0]; exact h2.1 a0 ha0
+          · subst hnil; simp
+        · intro x hx y hy
+          simp at hy; subst hy
+          intro hxy; subst hxy; exact ho_not hx
+      · exact h2.1 a h3
+    · -- a vote shared by the new attestation and a stored one of the same nonce
+      have key : ∀ b ∈ s.atts, ∀ o', b.nonce = n → o' ∈ (voteAtt s o n h).votes → o' ∈ b.votes → b.hash = h := by
+        intro b hb o' hbn hov hob
+        rw [hvs] at hov
+        rcases List.mem_append.mp hov with h4 | h4
+        · obtain ⟨a0, ha0, hn0, hh0, hoa⟩ := hvs0' o' h4
+          have := h2.2 a0 ha0 b hb o' (by rw [hn0, hbn]) hoa hob
+          rw [← this, hh0]
+        · simp at h4; subst h4
+          have := hA b hb hob; omega
+      intro a ha b hb o' hnab hoa hob
+      rcases mem_setAtt ha with h3 | h3 <;> rcases mem_setAtt hb with h4 | h4
+      · rw [h3, h4]
+      · rw [h3] at hnab hoa ⊢
+        rw [hk.2]
+        exact (key b h4 o' (by rw [← hnab, hk.1]) hoa hob).symm
+      · rw [h4] at hnab hob ⊢
+        rw [hk.2]
+        exact key a h3 o' (by rw [hnab, hk.1]) hob hoa
+      · exact h2.2 a h3 b h4 o' hnab hoa hob
+  -- the rest of `attest` only flips the observed flag / prunes
+  have hle : AttsLe (attest s o n h kind).atts (setAtt s.atts (voteAtt s o n h)) := by
+    unfold attest
+    simp only []
+    split
+    · exact tryAttest_attsLe { s with atts := setAtt s.atts (voteAtt s o n h) } _ kind (mem_setAtt_self _ _)
+    · exact attsLe_refl _
+  rw [attest_lastNonce]
+  exact ⟨V1_of_le hle hV1, V2_of_le hle hV2⟩
+
+/-- an op that cannot delete a per-oracle last nonce -/
+def Op.keepsLastNonce : Op → Bool
+  | .unbond _ _ _ _ => !unbondDeletesLastNonce
+  | _ => true
+
+/-- the op is not a bond of a retired oracle -/
+def opOk (s : State) : Op → Bool
+  | .bond o _ _ _ _ => !s.retired.contains o
+  | _ => true
+
+structure VInv (s : State) : Prop where
+  v1 : V1 s.atts s.lastNonce s.retired
+  v2 : V2 s.atts
+  r1 : ∀ o ∈ s.retired, s.oracles.get o = none
+
+theorem unbond_lastNonce (s : State) (o : Nat) (u : Bool) (bal : Nat) (d : Bool) (hk : unbondDeletesLastNonce = false) :
+    (unbondStep s o u bal d).1.lastNonce = s.lastNonce := by
+  unfold unbondStep
+  repeat' split
+  all_goals simp_all
+
+theorem core_atts {s s' : State} (h : Core s' = Core s) : s'.atts = s.atts := by
+  simp only [Core, Prod.mk.injEq] at h; exact h.2.1
+
+theorem bond_retired (s : State) (o b e a : Nat) (d : Bool) : (bondStep s o b e a d).1.retired = s.retired := by
+  unfold bondStep
+  repeat' split
+  all_goals simp [refresh]
+
+theorem addDelegate_retired (s : State) (o a : Nat) (d : Bool) : (addDelegateStep s o a d).1.retired = s.retired := by
+  unfold addDelegateStep addDelegateTo
+  repeat' split
+  all_goals simp [refresh]
+
+theorem editBridger_retired (s : State) (o b : Nat) : (editBridgerStep s o b).1.retired = s.retired := by
+  unfold editBridgerStep
+  repeat' split
+  all_goals simp
+
+theorem gov_retired (s : State) (l : List Nat) (d : Bool) : (govStep s l d).1.retired = s.retired := by
+  unfold govStep
+  repeat' split
+  all_goals simp [refresh]
+
+theorem endBlock_retired (s : State) (l : List Nat) (r : Bool) : (endBlockStep s l r).1.retired = s.retired := by
+  unfold endBlockStep
+  repeat' split
+  all_goals simp [refresh]
+
+/-- `m'` has no oracle that `m` does not have -/
+def NoNew (m m' : Map Oracle) : Prop := ∀ a, m.get a = none → m'.get a = none
+
+theorem NoNew_refl (m : Map Oracle) : NoNew m m := fun _ h => h
+
+theorem NoNew_set (m : Map Oracle) (o : Nat) (orc new : Oracle) (hg : m.get o = some orc) : NoNew m (m.set o new) := by
+  intro a ha
+  by_cases h : o = a
+  · subst h; rw [hg] at ha; cases ha
+  · rw [get_set_ne _ _ _ _ h]; exact ha
+
+theorem NoNew_map (m : Map Oracle) (f : Nat × Oracle → Nat × Oracle) (hk : ∀ p, (f p).1 = p.1) : NoNew m (m.map f) := by
+  intro a h
+  induction m with
+  | nil => simp [Map.get]
+  | cons q r ih =>
+    obtain ⟨k', v'⟩ := q
+    have e : f (k', v') = (k', (f (k', v')).2) := by
+      have := hk (k', v'); exact Prod.ext this rfl
+    by_cases h1 : k' = a
+    · simp [Map.get, h1] at h
+    · simp [Map.get, h1] at h
+      rw [List.map_cons, e]; simp [Map.get, h1]; exact ih h
+
+theorem NoNew_slashOne (m : Map Oracle) (o : Nat) : NoNew m (slashOne m o) := by
+  unfold slashOne
+  split
+  · rename_i orc hg
+    split
+    · exact NoNew_set m o orc _ hg
+    · exact NoNew_refl _
+  · exact NoNew_refl _
+
+theorem NoNew_foldl_slashOne (l : List Nat) (m : Map Oracle) : NoNew m (l.foldl slashOne m) := by
+  induction l generalizing m with
+  | nil => exact NoNew_refl _
+  | cons o r ih => exact fun a h => ih _ a (NoNew_slashOne m o a h)
+
+theorem vinv_frame {s s' : State} (ha : s'.atts = s.atts) (hl : s'.lastNonce = s.lastNonce) (hr : s'.retired = s.retired)
+    (hn : NoNew s.oracles s'.oracles) (h : VInv s) : VInv s' :=
+  ⟨by rw [ha, hl, hr]; exact h.v1, by rw [ha]; exact h.v2, by rw [hr]; exact fun o ho => hn o (h.r1 o ho)⟩
+
+theorem vinv_step (s : State) (op : Op) (hop : opOk s op = true) (hV : VInv s) : VInv (step s op).1 := by
+  cases op with
+  | claim w i n h k e =>
+    simp only [step]
+    by_cases hok : (claimStep s w i n h k).2 = .ok
+    · obtain ⟨a, orc, _, hgo, _, hn, _, _, heq⟩ := claim_ok s w i n h k hok
+      have hret : a ∉ s.retired := by
+        intro hc; have := hV.r1 a hc; rw [hgo] at this; cases this
+      have hv := votes_attest s a n h k s.retired hV.v1 hV.v2 hn hret
+      have hreg := attest_registry s a n h k
+      rw [heq]
+      exact ⟨by rw [attest_retired]; exact hv.1, hv.2, by rw [attest_retired, hreg.1]; exact hV.r1⟩
+    · rw [claim_not_ok s w i n h k hok]; exact hV
+  | bond o b e a d =>
+    simp only [step]
+    refine ⟨by rw [core_atts (bond_core s o b e a d).1, (bond_core s o b e a d).2, bond_retired]; exact hV.v1,
+      by rw [core_atts (bond_core s o b e a d).1]; exact hV.v2, ?_⟩
+    rw [bond_retired]
+    intro r hr
+    have hne : o ≠ r := by
+      intro hc; subst hc; simp [opOk] at hop; exact hop hr
+    have := hV.r1 r hr
+    unfold bondStep
+    repeat' split
+    all_goals first | exact this | (simp only [refresh]; rw [get_set_ne _ _ _ _ hne]; exact this)
+  | addDelegate o a d =>
+    simp only [step]
+    refine vinv_frame (core_atts (addDelegate_core s o a d).1) (addDelegate_core s o a d).2 (addDelegate_retired s o a d) ?_ hV
+    unfold addDelegateStep addDelegateTo
+    repeat' split
+    all_goals first | exact NoNew_refl _ | skip
+    all_goals
+      rename_i orc hg _ _ _ _ _
+      exact NoNew_set s.oracles o orc _ hg
+  | editBridger o b =>
+    simp only [step]
+    refine vinv_frame (core_atts (editBridger_core s o b).1) (editBridger_core s o b).2 (editBridger_retired s o b) ?_ hV
+    unfold editBridgerStep
+    repeat' split
+    all_goals first | exact NoNew_refl _ | skip
+    rename_i orc hg _ _ _
+    exact NoNew_set s.oracles o orc _ hg
+  | unbond o u bal d =>
+    simp only [step]
+    have hat := core_atts (unbond_core s o u bal d)
+    unfold unbondStep at hat ⊢
+    repeat' split
+    all_goals first | exact hV | skip
+    · -- the key is deleted and the oracle retired
+      refine ⟨?_, hV.v2, ?_⟩
+      · intro a ha o' ho'
+        rcases hV.v1 a ha o' ho' with ⟨v, hv, hle⟩ | hr
+        · by_cases h : o = o'
+          · subst h; exact Or.inr List.mem_cons_self
+          · exact Or.inl ⟨v, by simp only []; rw [get_del_ne _ _ _ h]; exact hv, hle⟩
+        · exact Or.inr (List.mem_cons_of_mem _ hr)
+      · intro r hr
+        simp only [] at hr ⊢
+        by_cases h : o = r
+        · subst h; exact get_del_self _ _
+        · rw [get_del_ne _ _ _ h]
+          rcases List.mem_cons.mp hr with h1 | h1
+          · exact absurd h1.symm h
+          · exact hV.r1 r h1
+    · -- the key is kept
+      refine ⟨hV.v1, hV.v2, ?_⟩
+      intro r hr
+      simp only [] at hr ⊢
+      by_cases h : o = r
+      · subst h; exact get_del_self _ _
+      · rw [get_del_ne _ _ _ h]; exact hV.r1 r hr
+  | gov l d =>
+    simp only [step]
+    refine vinv_frame (core_atts (gov_core s l d).1) (gov_core s l d).2 (gov_retired s l d) ?_ hV
+    unfold govStep
+    repeat' split
+    all_goals first | exact NoNew_refl _ | skip
+    all_goals
+      refine NoNew_map s.oracles _ ?_
+      intro p; split <;> rfl
+  | endBlock l r =>
+    simp only [step]
+    refine vinv_frame (core_atts (endBlock_core s l r).1) (endBlock_core s l r).2 (endBlock_retired s l r) ?_ hV
+    unfold endBlockStep
+    split
+    all_goals exact NoNew_foldl_slashOne l s.oracles
+  | exec n f =>
+    simp only [step]
+    unfold execStep
+    repeat' split
+    all_goals exact ⟨hV.v1, hV.v2, hV.r1⟩
+
+theorem vinv_init (p : Params) : VInv (init p) := by
+  refine ⟨?_, ⟨?_, ?_⟩, ?_⟩ <;> (intro a ha; simp [init] at ha)
+
+theorem noRebond_cons (s : State) (op : Op) (r : List Op) (h : noRebond s (op :: r) = true) :
+    opOk s op = true ∧ noRebond (step s op).1 r = true := by
+  cases op <;> simp_all [noRebond, opOk]
+
+theorem vinv_run (s : State) (ops : List Op) (hops : noRebond s ops = true) (hV : VInv s) : VInv (run s ops) := by
+  induction ops generalizing s with
+  | nil => exact hV
+  | cons op r ih =>
+    have := noRebond_cons s op r hops
+    exact ih _ this.2 (vinv_step s op this.1 hV)
+
+/-- on a tree where `UnbondedOracle` keeps the per-oracle last nonce nothing is ever retired, so every history qualifies -/
+theorem retired_step (s : State) (op : Op) (hk : unbondDeletesLastNonce = false) (h : s.retired = []) : (step s op).1.retired = [] := by
+  cases op with
+  | claim w i n h' k e =>
+    simp only [step]
+    by_cases hok : (claimStep s w i n h' k).2 = .ok
+    · obtain ⟨a, _, _, _, _, _, _, _, heq⟩ := claim_ok s w i n h' k hok
+      rw [heq, attest_retired]; exact h
+    · rw [claim_not_ok s w i n h' k hok]; exact h
+  | bond o b e a d => simp only [step]; rw [bond_retired]; exact h
+  | addDelegate o a d => simp only [step]; rw [addDelegate_retired]; exact h
+  | editBridger o b => simp only [step]; rw [editBridger_retired]; exact h
+  | unbond o u bal d =>
+    simp only [step]; unfold unbondStep
+    repeat' split
+    all_goals simp_all
+  | gov l d => simp only [step]; rw [gov_retired]; exact h
+  | endBlock l r => simp only [step]; rw [endBlock_retired]; exact h
+  | exec n f =>
+    simp only [step]; unfold execStep
+    repeat' split
+    all_goals exact h
+
+theorem noRebond_of_kept (hk : unbondDeletesLastNonce = false) (s : State) (ops : List Op) (h : s.retired = []) :
+    noRebond s ops = true := by
+  induction ops generalizing s with
+  | nil => rfl
+  | cons op r ih =>
+    have hn := ih _ (retired_step s op hk h)
+    cases op <;> simp_all [noRebond]
 
 end FxVerif.Proofs.C01
